@@ -1476,4 +1476,20 @@ def replay_same_point(inputs, clause, passes=("containment", "visibility")):
                 f"with pruning {len(pruned)} of 30, e.g. position {pos} with yaw {yaw} although the field value there is {want} "
                 f"(position conditioned to {obj.position._conditioned}: the orientation is still read at the point drawn in the unpruned region)"
             )
+    if "later_passes" in clause or clause == "*":
+        # both passes prune: a 30 x 4 workspace strip, then the 4 m view of the ego; the region the base point is finally
+        # drawn in must still lie in the workspace (what containment pruning established)
+        import shapely.geometry
+
+        src = SHARED_POINT_VISIBLE_PROGRAM.replace("ego = new", "workspace = Workspace(PolygonalRegion([0@0, 30@0, 30@4, 0@4]))\nego = new", 1).replace("at (3, 5, 0.5)", "at (3, 2, 0.5)")
+        random.seed(11)
+        sc = scenic.scenarioFromString(src, mode2D=False)
+        pos = sc.objects[1].position
+        inner = getattr(pos._conditioned, "object", pos._conditioned)._conditioned
+        region = getattr(inner, "region", None)
+        strip = shapely.geometry.box(0, 0, 30, 4).buffer(1e-6)
+        if region is not None and hasattr(region, "polygons"):
+            outside = region.polygons.difference(strip).area
+            if outside > 1e-6 or region.polygons.area > 30 * 4 - 1:
+                return f"object with a 30 x 4 workspace strip and requireVisible from an ego seeing 4 m: after all pruning passes its base point is drawn in {region.polygons.wkt[:160]} (area {region.polygons.area:.1f}, {outside:.1f} outside the workspace): the visibility pass discarded the containment pruning"
     return None
